@@ -1,9 +1,9 @@
 package sym
 
 import (
-	"go/types"
 	"crypto/sha256"
 	"fmt"
+	"go/types"
 
 	"golang.org/x/tools/go/ssa"
 )
